@@ -49,12 +49,22 @@ fn number_classes() -> Vec<Vec<&'static str>> {
         vec!["-1.5", "-15e-1", "-1.50", "-0.15e1", "-150E-2"],
         vec!["1", "1.0", "1e0", "1E-0", "10e-1", "0.1e1"],
         vec!["9007199254740991", "9007199254740991.0", "9.007199254740991e15"],
+        // float spellings only (an integer spelling beyond 2^53-1 is not a valid literal)
+        vec!["2e16", "20000000000000000.0", "2.0e16", "20000000000000000.00", "2E+16", "0.2e17", "20000000000000000.0e0", "200000000000000000e-1"],
+        vec!["-4e16", "-40000000000000000.0", "-4.0E16", "-0.4e17", "-40000000000000000.000"],
+        vec!["1e300", "1.0e300", "10e299", "1E+300", "0.1e301", "1000000000000000000000000000000.0e270"],
+        vec!["1e-7", "0.0000001", "1.0E-7", "10e-8", "0.1e-6", "0.00000010"],
+        vec!["123456", "123456.0", "1.23456e5", "123456.00", "1234560e-1", "12345.6E1"],
+        vec!["9007199254740992.0", "9.007199254740992e15", "9007199254740992.00", "900719925474099.2e1"],
+        vec!["-9007199254740991", "-9007199254740991.0", "-9.007199254740991e15", "-9007199254740991.0e0"],
     ]
 }
 
 fn number_doc() -> J {
     let o = |v: J| J::Obj(vec![("v".into(), v)]);
-    J::Arr(vec![o(J::int(100)), o(J::float(100.0)), o(J::int(99)), o(J::float(100.5)), o(J::str("100")), o(J::int(0)), o(J::float(-0.0)), o(J::float(0.5)), o(J::float(-1.5)), o(J::int(1)), o(J::float(1.0)), o(J::int(9007199254740991)), o(J::Null), J::Obj(vec![])])
+    J::Arr(vec![o(J::int(100)), o(J::float(100.0)), o(J::int(99)), o(J::float(100.5)), o(J::str("100")), o(J::int(0)), o(J::float(-0.0)), o(J::float(0.5)), o(J::float(-1.5)), o(J::int(1)), o(J::float(1.0)), o(J::int(9007199254740991)), o(J::Null), J::Obj(vec![]),
+        o(J::float(2e16)), o(J::float(2.0000000000000004e16)), o(J::int(20000000000000000)), o(J::float(-4e16)), o(J::int(-40000000000000000)), o(J::float(1e300)), o(J::float(1e-7)), o(J::int(123456)), o(J::float(123456.0)),
+        o(J::float(9007199254740992.0)), o(J::int(9007199254740992)), o(J::int(-9007199254740991)), o(J::float(1.7976931348623157e308))])
 }
 
 fn observe(text: &str, doc: &Doc) -> Result<Vec<usize>, String> {
@@ -206,6 +216,87 @@ pub fn run(ctx: &Ctx) -> Result<Evidence, String> {
             }
         }
     });
+    // spellings of very different length in use at the same time: every thread alternates between
+    // the compact spelling and spellings padded with thousands of optional blanks and redundant
+    // parentheses; the nodes must be those of the compact spelling evaluated before the threads start
+    let mut acc = acc;
+    {
+        let threads = ctx.threads.clamp(2, 16);
+        let rounds = ctx.tier.pick(1500, 20000);
+        // a small document: the threads should spend their time in the parser, not in evaluation
+        let small = Doc::from_value(serde_json::from_str(r#"[{"a":1,"b":"x","c":[1,2]},{"a":2,"k":{"a":1}},{"x y":1,"xy":2},1,"a",[1,[2]]]"#).expect("C13 small document"));
+        let doc = &small;
+        let numdoc = &numdoc;
+        let mut jobs: Vec<(String, String, Vec<usize>, &Doc)> = vec![];
+        for (k, t) in curated().iter().enumerate() {
+            let ast = analyze(t).ast.unwrap();
+            let compact = render(&ast, &mut Spelling::canonical());
+            let mut s = Spelling::canonical();
+            s.extra_parens = 2;
+            s.filter_parens = true;
+            s.blanks = Blanks::All(" \t\n\r".repeat(150 + 75 * (k % 3)));
+            let verbose = render(&ast, &mut s);
+            if let Ok(want) = observe(&compact, doc) {
+                jobs.push((compact, verbose, want, doc));
+            }
+        }
+        {
+            let b = " \t\n\r".repeat(300);
+            let compact = "$[?@.v==1e2]".to_string();
+            let verbose = format!("${b}[{b}?{b}({b}({b}@{b}.v{b}=={b}100.0{b}){b}){b}]", b = b);
+            if let Ok(want) = observe(&compact, numdoc) {
+                jobs.push((compact, verbose, want, numdoc));
+            }
+        }
+        let jobs = &jobs;
+        let barrier = std::sync::Barrier::new(threads);
+        let done = std::sync::atomic::AtomicU64::new(0);
+        let verbose_threads = (threads + 3) / 4;
+        let verbose_running = std::sync::atomic::AtomicU64::new(verbose_threads as u64);
+        let longest = jobs.iter().map(|j| j.1.len()).max().unwrap_or(0);
+        std::thread::scope(|s| {
+            for t in 0..threads {
+                let (barrier, done, verbose_running) = (&barrier, &done, &verbose_running);
+                s.spawn(move || {
+                    use std::sync::atomic::Ordering::SeqCst;
+                    // one thread in four keeps to the verbose spellings for `rounds` rounds; the
+                    // others keep to the compact ones for as long as a verbose thread is at work
+                    let verbose = t % 4 == 0;
+                    struct Leave<'a>(&'a std::sync::atomic::AtomicU64, bool);
+                    impl Drop for Leave<'_> {
+                        fn drop(&mut self) {
+                            if self.1 {
+                                self.0.fetch_sub(1, std::sync::atomic::Ordering::SeqCst);
+                            }
+                        }
+                    }
+                    let _leave = Leave(verbose_running, verbose);
+                    barrier.wait();
+                    for round in 0..(if verbose { rounds } else { rounds * 2000 }) {
+                        if !verbose && verbose_running.load(SeqCst) == 0 {
+                            break;
+                        }
+                        let job = &jobs[(round + t * 7) % jobs.len()];
+                        let text = if verbose { &job.1 } else { &job.0 };
+                        let got = observe(text, job.3);
+                        if got.as_ref() != Ok(&job.2) {
+                            ctx.violate(
+                                &format!("with {} threads evaluating spellings of different length at the same time, a spelling of {:?} ({} bytes) gives {} instead of {} nodes", threads, job.0, text.len(), brief(&got), job.2.len()),
+                                json!({"kind":"schedule","base": job.0, "variant": text, "threads": threads, "document": serde_json::from_str::<serde_json::Value>(&job.3.text()).unwrap_or_default()}),
+                            );
+                            return;
+                        }
+                        done.fetch_add(1, std::sync::atomic::Ordering::Relaxed);
+                    }
+                });
+            }
+        });
+        let n = done.load(std::sync::atomic::Ordering::Relaxed);
+        acc.evaluations += n;
+        acc.count("class_concurrent-long-and-short-spellings", n);
+        acc.count("concurrent_spelling_threads", threads as u64);
+        acc.count("concurrent_longest_spelling_bytes", longest as u64);
+    }
     let mut ev = Evidence::new("cases = (AST, spelling, document): curated ASTs covering each equivalence class and seeded random ASTs, each rendered canonically and in the spellings RFC 9535 declares equivalent: .n / ['n'] / [\"n\"], .* / [*], ..n / ..['n'], ?e / ?(e) / ?((e)) and parentheses around every basic expression, string literals in either quote style, \\uXXXX escapes, every S slot x {SP,HT,LF,CR} singly, all 3^k blank combinations for queries with k <= 6 slots, random mixtures beyond; number literals in all spellings of one value on both sides of every operator against int- and float-valued document numbers. The library's results (node addresses, in order) for a spelling and for the canonical spelling must be identical. Non-trivial = distinct (spelling, document) that differ from the canonical spelling and select at least one node.");
     ev.set("exhaustive", json!(false));
     ev.set("asts", json!(asts.len()));
